@@ -423,7 +423,13 @@ partial def loop (h : IO.FS.Stream) (out : IO.FS.Stream) : IO Unit := do
   let f := (line.splitOn "\t").toArray
   -- pad so that a short line cannot index out of range
   let f := f ++ Array.replicate 64 ""
-  out.putStrLn (handle f)
+  if f[0]! == "seq" then
+    -- several ops answered one after the other in the same process (the model has no state between them; the
+    -- implementation must not have any either): fields of each sub-op are separated by U+001F
+    let parts := (f.toList.drop 1).filter (· != "")
+    out.putStrLn (" ;; ".intercalate (parts.map fun p => handle ((p.splitOn "\x1f").toArray ++ Array.replicate 64 "")))
+  else
+    out.putStrLn (handle f)
   loop h out
 
 def main : IO Unit := do
